@@ -10,7 +10,16 @@ use steel::SteelVal;
 
 #[derive(Deserialize, Serialize, Clone, Debug)]
 pub struct Step {
+    /// Scheme text (ignored when `op` is set)
+    #[serde(default)]
     pub src: String,
+    /// host-side directive instead of Scheme text:
+    ///   "force_recycle"  redefine a pad name until the global slot recycler has run
+    ///   "fill_free"      define fresh names until no recycled global slot is left
+    ///   "hold:<name>"    extract_value(name) and keep it on the host side
+    ///   "call_held:<k>"  call the k-th held value with no arguments and emit the result
+    #[serde(default)]
+    pub op: Option<String>,
     /// "ok" | "err" | "err:<Kind>" | "any" | "noncrash" (ok or err, never panic)
     #[serde(default = "any")]
     pub class: String,
@@ -72,6 +81,66 @@ pub fn new_engine(log: &Log) -> Engine {
     // identity that the optimiser cannot see through (defeats constant folding)
     e.register_fn("opaque", move |v: SteelVal| -> SteelVal { v });
     e
+}
+
+/// Host-side state of one case (values the embedder keeps).
+#[derive(Default)]
+pub struct HostState {
+    pub held: Vec<SteelVal>,
+    pub uniq: String,
+    pub pad: usize,
+}
+
+pub fn gen_of(e: &Engine) -> (usize, usize) {
+    let (_, threshold, _, epoch) = e.verif_symbol_map_stats();
+    (threshold, epoch)
+}
+
+/// Execute a host-side directive.
+pub fn run_op(e: &mut Engine, log: &Log, host: &mut HostState, op: &str) -> Got {
+    log.lock().unwrap().clear();
+    let r = catch_unwind(AssertUnwindSafe(|| -> std::result::Result<Option<String>, String> {
+        if op == "force_recycle" {
+            let g0 = gen_of(e);
+            let mut n = 0;
+            while gen_of(e) == g0 {
+                host.pad += 1;
+                let src = format!("(define verif-pad-{} {})", host.uniq, host.pad);
+                e.compile_and_run_raw_program(src).map_err(|x| x.to_string())?;
+                n += 1;
+                if n > 5000 { return Err("recycler never ran".into()); }
+            }
+            Ok(Some(format!("{n}")))
+        } else if op == "fill_free" {
+            let mut n = 0;
+            while e.verif_symbol_map_stats().2 > 0 {
+                host.pad += 1;
+                let src = format!("(define verif-fill-{}-{} 'junk-{})", host.uniq, host.pad, host.pad);
+                e.compile_and_run_raw_program(src).map_err(|x| x.to_string())?;
+                n += 1;
+                if n > 5000 { return Err("free list never drained".into()); }
+            }
+            Ok(Some(format!("{n}")))
+        } else if let Some(name) = op.strip_prefix("hold:") {
+            let v = e.extract_value(&name.replace("@@", &host.uniq)).map_err(|x| x.to_string())?;
+            host.held.push(v);
+            Ok(None)
+        } else if let Some(k) = op.strip_prefix("call_held:") {
+            let k: usize = k.parse().map_err(|_| "bad index".to_string())?;
+            let f = host.held.get(k).cloned().ok_or("no such held value")?;
+            let v = e.call_function_with_args(f, vec![]).map_err(|x| x.to_string())?;
+            log.lock().unwrap().push(v.to_string());
+            Ok(None)
+        } else {
+            Err(format!("unknown op {op}"))
+        }
+    }));
+    let emit = log.lock().unwrap().clone();
+    match r {
+        Ok(Ok(val)) => Got { class: "ok".into(), emit, val, msg: None },
+        Ok(Err(m)) => Got { class: "err:Host".into(), emit, val: None, msg: Some(m.chars().take(200).collect()) },
+        Err(_) => Got { class: "panic".into(), emit, val: None, msg: Some("panic in host op".into()) },
+    }
 }
 
 /// Evaluate one step on `e`, returning what was observed.  Panics are data.
